@@ -98,5 +98,11 @@ example : ∃ s, Reachable (tableSys dbAct locksetTable (· == .none)
     S2 0 ⟨"DB.Put", 1, "acqW", .W, 1⟩ putPath.tail hhead (by decide) rfl (fun _ => rfl)
   exact ⟨_, .step (.step (.step .init s1) s2) s3, rfl, by decide, rfl⟩
 
+set_option maxRecDepth 100000 in
+/-- the background-merge goroutine of `Open` (walked as pseudo-method `Open.go1`) is in the table, reads `bytesWrite`, and
+every one of its reads of that field holds `db.mu` (fix 94ad76a) -/
+example : (locksetTable.any fun r => r.method == "Open.go1" && r.action == "read:bytesWrite") = true ∧
+    (locksetTable.all fun r => !(r.method == "Open.go1" && r.action == "read:bytesWrite") || r.mode != .none) = true := by
+  decide
 
 end XixiKV.C09
